@@ -1,5 +1,5 @@
 #!/usr/bin/env python3
-"""usage: mkoverlay.py <outdir> [--sync file ...] [--modsync module file ...] [--lru]
+"""usage: mkoverlay.py <outdir> [--sync file ...] [--flock file] [--modsync module file ...] [--lru]
 Writes <outdir>/overlay.json for `go build -overlay`:
  * every --sync file (path relative to the repository) is copied from the repository's CURRENT
    working tree with its `"sync"` import rewritten to the scheduler-aware virtual package
@@ -7,6 +7,9 @@ Writes <outdir>/overlay.json for `go build -overlay`:
    what gets compiled);
  * --modsync <module> <file...>: the same rewrite for files of a dependency (version taken from the
    repository's go.mod, source from the module cache), e.g. go.etcd.io/bbolt db.go;
+ * --flock <file> (a file also named under --sync): every `syscall.Flock(` call of that file goes
+   through a function that asks the exported hook VerifFlockHook(fd, how) first (a non-nil error is
+   returned INSTEAD of calling flock(2): environment answer of the fault enumerator);
  * the virtual package itself is added to the acra module;
  * --lru replaces github.com/golang/groupcache/lru/lru.go by an instrumented copy that reports
    every cache operation to a hook (access monitor of E1).
@@ -21,6 +24,7 @@ os.makedirs(out, exist_ok=True)
 replace = {}
 sync_files, lru = [], False
 mod_files = []  # (module, file)
+flock_files = []
 i = 0
 while i < len(args):
     if args[i] == "--sync":
@@ -34,6 +38,9 @@ while i < len(args):
         while i < len(args) and not args[i].startswith("--"):
             mod_files.append((mod, args[i])); i += 1
         continue
+    if args[i] == "--flock":
+        flock_files.append(args[i + 1]); i += 2
+        continue
     if args[i] == "--lru":
         lru = True
     i += 1
@@ -42,9 +49,31 @@ for rel in sync_files:
     new, n = re.subn(r'(?m)^(\s*)"sync"\s*$', r'\1sync "github.com/cossacklabs/acra/verifsync"', src)
     if n != 1:
         sys.exit("mkoverlay: %s: expected exactly one plain \"sync\" import, found %d" % (rel, n))
+    if rel in flock_files:
+        new, n = re.subn(r'\bsyscall\.Flock\(', 'verifFlock(', new)
+        if n == 0:
+            sys.exit("mkoverlay: %s: no syscall.Flock call to rewrite" % rel)
+        new += """
+// ---- added by the /verif build overlay: environment seam of flock(2) ----
+
+// VerifFlockHook is installed by the harness; a non-nil error is returned instead of calling flock(2).
+var VerifFlockHook func(fd int, how int) error
+
+func verifFlock(fd int, how int) error {
+	if h := VerifFlockHook; h != nil {
+		if err := h(fd, how); err != nil {
+			return err
+		}
+	}
+	return syscall.Flock(fd, how)
+}
+"""
     dst = os.path.join(out, rel.replace("/", "__"))
     open(dst, "w").write(new)
     replace[os.path.join(repo, rel)] = dst
+for rel in flock_files:
+    if rel not in sync_files:
+        sys.exit("mkoverlay: --flock %s must also be listed under --sync" % rel)
 for mod, rel in mod_files:
     m = re.search(r'(?m)^\s*%s (v\S+)' % re.escape(mod), open(os.path.join(repo, "go.mod")).read())
     if not m:
